@@ -53,6 +53,12 @@ type Op struct {
 	Missing []string `json:"missing,omitempty"`
 	VErr    bool     `json:"verr,omitempty"`
 	Vals    []Val    `json:"vals,omitempty"`
+	// the node fails every request that names this account's public key (0: none)
+	FailOn int `json:"fail_on,omitempty"`
+	// large installations: runs of consecutive ids / validators / indices (see big.go)
+	OfferedRanges [][2]int    `json:"offered_ranges,omitempty"` // first id, count
+	ValRanges     []ValRange  `json:"val_ranges,omitempty"`
+	IndexRanges   [][2]uint64 `json:"index_ranges,omitempty"` // first index, count
 	// query
 	Sync    bool     `json:"sync,omitempty"`
 	Epoch   uint64   `json:"epoch,omitempty"`
@@ -64,6 +70,7 @@ type Input struct {
 	Manager  string   `json:"manager"` // dirk | wallet
 	Specs    []string `json:"specs"`
 	Universe []Acct   `json:"universe"`
+	Ranges   []AcctRange `json:"ranges,omitempty"` // large installations: further accounts, by ranges of ids
 	Far      uint64   `json:"far"`
 	Ops      []Op     `json:"ops"` // the first one is the constructor's refresh
 	Trace    bool     `json:"trace,omitempty"`
@@ -159,7 +166,11 @@ func (e *env) probe(ctx context.Context) []int {
 }
 
 func runInput(in Input) (outs []Out, panicked string) {
+	in = expand(in)
 	initKeys()
+	for _, a := range in.Universe {
+		ensureKeys(a.ID)
+	}
 	ctx := context.Background()
 	level := zerolog.Disabled
 	if in.Trace {
@@ -204,7 +215,7 @@ func runInput(in Input) (outs []Out, panicked string) {
 	for i, op := range in.Ops {
 		switch op.Kind {
 		case "refresh":
-			e.node.script(op.VErr, op.Vals)
+			e.node.script(op.VErr, op.FailOn, op.Vals)
 			if i > 0 {
 				e.offer(op)
 				e.svc.Refresh(ctx)
@@ -373,7 +384,11 @@ func term(id uint64, in Input, outs []Out) (string, error) {
 	if in.Manager == "wallet" {
 		mgr = "Wallet"
 	}
-	cfg := App("Build_config", mgr, List(specs), List(universe), b.Num(in.Far))
+	uni := List(universe)
+	for _, rg := range in.Ranges {
+		uni += " ++ " + App("range_accounts", b.S(rg.Wallet), b.S(rg.Prefix), b.Num(uint64(rg.First)), b.Num(uint64(rg.Count)), Bool(rg.Locked))
+	}
+	cfg := App("Build_config", mgr, List(specs), "("+uni+")", b.Num(in.Far))
 	ops := make([]string, 0, len(in.Ops))
 	for _, op := range in.Ops {
 		if op.Kind == "refresh" {
@@ -383,7 +398,16 @@ func term(id uint64, in Input, outs []Out) (string, error) {
 				for _, v := range op.Vals {
 					vals = append(vals, b.V(v))
 				}
-				vo = App("VOk", List(vals))
+				vl := List(vals)
+				for _, vr := range op.ValRanges {
+					vl += " ++ " + App("range_vals", b.Num(uint64(vr.First)), b.Num(uint64(vr.Count)), b.Num(vr.Index0),
+						b.Num(vr.Elig), b.Num(vr.Act), b.Num(vr.Exit), b.Num(vr.Wd), Bool(vr.Slashed), b.Num(vr.Bal))
+				}
+				if op.FailOn > 0 {
+					vo = App("VFailOn", b.Num(uint64(op.FailOn)), "("+vl+")")
+				} else {
+					vo = App("VOk", "("+vl+")")
+				}
 			}
 			// a wallet the signer/store does not know offers nothing
 			missing := map[string]bool{}
@@ -400,11 +424,24 @@ func term(id uint64, in Input, outs []Out) (string, error) {
 					offered = append(offered, k)
 				}
 			}
-			ops = append(ops, App("Refresh", b.nList(offered), vo))
+			off := b.nList(offered)
+			for _, rg := range op.OfferedRanges {
+				// the ranges of a wallet the signer/store does not know offer nothing
+				for _, part := range splitByWallet(in, rg) {
+					if !missing[part.wallet] {
+						off += " ++ " + App("range_N", b.Num(uint64(part.first)), b.Num(uint64(part.count)))
+					}
+				}
+			}
+			ops = append(ops, App("Refresh", "("+off+")", vo))
 		} else {
 			idx := None()
 			if op.ByIndex {
-				idx = Some(b.uList(op.Indices))
+				il := b.uList(op.Indices)
+				for _, rg := range op.IndexRanges {
+					il += " ++ " + App("range_N", b.Num(rg[0]), b.Num(rg[1]))
+				}
+				idx = Some("(" + il + ")")
 			}
 			ops = append(ops, App("Query", Bool(op.Sync), b.Num(op.Epoch), idx))
 		}
@@ -413,13 +450,9 @@ func term(id uint64, in Input, outs []Out) (string, error) {
 	for _, o := range outs {
 		switch o.Kind {
 		case "probe":
-			os = append(os, App("OProbe", b.nList(o.Known)))
+			os = append(os, App("OProbe", b.runsN(o.Known)))
 		case "query":
-			ps := make([]string, 0, len(o.Pairs))
-			for _, p := range o.Pairs {
-				ps = append(ps, Pair(b.Num(p[0]), b.Num(p[1])))
-			}
-			os = append(os, App("OQuery", List(ps)))
+			os = append(os, App("OQuery", b.runsPairs(o.Pairs)))
 		case "ctor-error":
 			os = append(os, "OCtorErr")
 		default:
@@ -441,6 +474,12 @@ func tagsOf(in Input) []string {
 		tags = append(tags, t)
 	}
 	add("manager:" + in.Manager)
+	if n := len(expand(in).Universe); n > maxKeys {
+		add("large-installation")
+		if n > 512 {
+			add("large-installation:over-512")
+		}
+	}
 	for _, s := range in.Specs {
 		parts := strings.Split(s, "/")
 		for i, p := range parts {
@@ -471,8 +510,11 @@ func tagsOf(in Input) []string {
 			if refreshes > 1 && len(op.Offered) == 0 {
 				add("empty-account-refresh")
 			}
-			if refreshes > 1 && (op.VErr || len(op.Vals) == 0) {
+			if refreshes > 1 && (op.VErr || len(op.Vals)+len(op.ValRanges) == 0) {
 				add("empty-validator-refresh")
+			}
+			if op.FailOn > 0 && !op.VErr {
+				add("node-fails-on-key")
 			}
 			for _, v := range op.Vals {
 				if v.Slashed && v.Exit == in.Far {
@@ -505,7 +547,7 @@ func traceSafe(in Input) bool {
 func TestC13(t *testing.T) {
 	zerologger.Logger = zerologger.Output(io.Discard)
 	col := NewCollector("C13", "Check.C13",
-		"histories of a constructor refresh plus 1-8 refreshes/queries on the real dirk or wallet account manager over 1-5 specifiers, 2-12 offered accounts and their validators; non-trivial = some account was admitted and (some offered account was refused or some query answered with a non-empty set); distinct by input text")
+		"histories of a constructor refresh plus 1-8 refreshes/queries on the real dirk or wallet account manager over 1-5 specifiers, 2-12 offered accounts and their validators (one case in 50: a large installation of 60-1500 accounts written by ranges, with a node that fails the requests naming one key, answers in part, or fails wholesale); non-trivial = some account was admitted and (some offered account was refused or some query answered with a non-empty set); distinct by input text")
 	col.ShardSize = 150 // elaborating a case costs ~20 ms in coqc; small shards are evaluated in parallel
 	n := EnvInt("VERIF_N", 800)
 	var ins []Input
@@ -520,7 +562,13 @@ func TestC13(t *testing.T) {
 	rng := NewRand(NewRand(Seed()).U64())
 	thorough := strings.HasPrefix(strings.ToLower(getenv("VERIF_TIER")), "thorough") || getenv("VERIF_SEARCH") != ""
 	for i := 0; i < n; i++ {
-		in := gen(rng.Fork())
+		var in Input
+		if r := rng.Fork(); i%bigEvery == bigEvery/2 {
+			// a large installation every bigEvery cases, so that the shards share their cost
+			in = genBig(r, i/bigEvery)
+		} else {
+			in = gen(r)
+		}
 		if thorough && i%2 == 1 && traceSafe(in) {
 			in.Trace = true
 		}
@@ -543,13 +591,14 @@ func TestC13(t *testing.T) {
 			t.Fatalf("case %d: %v", id, err)
 		}
 		admitted, refused, answered := false, false, false
+		flat := expand(in)
 		for i, o := range outs {
 			switch o.Kind {
 			case "probe":
 				if len(o.Known) > 0 {
 					admitted = true
 				}
-				if len(o.Known) < len(in.Ops[i].Offered) {
+				if len(o.Known) < len(flat.Ops[i].Offered) {
 					refused = true
 				}
 			case "query":
@@ -560,7 +609,7 @@ func TestC13(t *testing.T) {
 		}
 		col.Count("manager:" + in.Manager)
 		for _, tg := range tags {
-			if strings.HasPrefix(tg, "alternation") {
+			if strings.HasPrefix(tg, "alternation") || strings.HasPrefix(tg, "large-installation") || strings.HasPrefix(tg, "node-fails") || strings.HasPrefix(tg, "big:") {
 				col.Count("family:" + tg)
 			}
 		}
@@ -591,8 +640,9 @@ func TestC13(t *testing.T) {
 			M string
 			S []string
 			U []Acct
+			R []AcctRange
 			O []Op
-		}{in.Manager, in.Specs, in.Universe, in.Ops})
+		}{in.Manager, in.Specs, in.Universe, in.Ranges, in.Ops})
 		col.Add(Case{Term: tm, Key: key, Nontrivial: admitted && (refused || answered), Tags: tags,
 			Sample: map[string]any{"input": in, "observed": outs}})
 	}
